@@ -82,3 +82,30 @@ pub fn differs(base: &Outcome, ctx: &'static str, got: &Outcome) -> Option<Strin
     _ => None,
   }
 }
+
+/// one expression template: `local` is written over local names, `top` is the same expression over the globals that hold the operands
+pub struct Tpl { pub local: String, pub top: String, pub vars: Vec<LVar>, pub scalar_operands: bool, pub set_ok: bool, pub tag: String }
+
+fn kind_text(c: &Canon) -> String {
+  match c { Canon::Matrix(k, ..) => format!("[{}]", k), Canon::Set(k, ..) => format!("{{{}}}", k), other => other.kind_name() }
+}
+
+/// evaluate every template over globals and in every local context; report disagreements as `<id>|local-context-differs|<ctx>:<tag>`
+pub fn judge_templates(id: &str, s: &mut Session, tpls: &[Tpl], uniq0: usize, preamble: &str, out: &mut crate::pool::WorkerOut) {
+  for (ti, t) in tpls.iter().enumerate() {
+    let uniq = uniq0 + ti;
+    out.evaluations += 1;
+    let base = s.run(&format!("lcb{} := {}", uniq, t.top));
+    let Outcome::Value(bc) = &base else { out.count("context_base_rejected"); continue; };
+    let rk = kind_text(bc);
+    let res = eval_in_contexts(s, uniq, &t.vars, &t.local, &rk, &t.top, t.scalar_operands, t.set_ok);
+    for (ctx, text, o) in res {
+      out.evaluations += 1;
+      let case = format!("{} ;; {}   versus r := {}", preamble, text, t.top);
+      match differs(&base, ctx, &o) {
+        None => { out.nontrivial += 1; out.count(&format!("context_agrees:{}", ctx)); }
+        Some(d) => out.fail(format!("{}|local-context-differs|{}:{}", id, ctx, t.tag), case, d),
+      }
+    }
+  }
+}
